@@ -1,21 +1,35 @@
 (* Props/C03.v — property C03: every single injected fault is rejected and localised.
    Statements only.  Proofs: Proofs/C0203_segment.v; Spec/C0203_spec.v.
 
-   PARTIAL: segment level only (element faults and too many elements).  Proved: starting from a conformant segment,
-   replacing ONE simple element by a value that draws the non-empty code set cds from its definition (any of: too
-   long, too short, outside the code lists, wrong character class, impossible date or time, missing when required,
-   present when not used) makes validation return false, every error event is filed at that element position, names
-   that element and carries a code of cds, and every code of cds is reported; one extra trailing element gives
-   exactly one error, code 3.  Side conditions, each shown necessary by a witness: the position is mentioned by no
-   syntax note, is not the DTP02 format qualifier, the new value has no control character (for completeness of cds).
-   Not proved: segment-level faults (unknown / out-of-place segment, missing required segment, repeat limits), the
-   attachment of the error to the segment's position and line in the error tree, and that other sets stay accepted:
-   checked on the implementation by single-fault injection into conformant documents. *)
+   Two levels.
+   (i) SEGMENT (Proofs/C0203_segment.v): starting from a conformant segment, replacing ONE simple element by a value
+   that draws the non-empty code set cds from its definition (too long, too short, outside the code lists, wrong
+   character class, impossible date or time, missing when required, present when not used) makes validation return
+   false, every error event is filed at that element position, names that element and carries a code of cds, and
+   every code of cds is reported; one extra trailing element gives exactly one error, code 3.  Side conditions, each
+   shown necessary by a witness: the position is mentioned by no syntax note, is not the DTP02 format qualifier, the
+   new value has no control character.
+   (ii) DOCUMENT, for the walker (Spec/C03_doc_spec.v, Proofs/C03_doc*.v, on the C02 machinery; maps with walker_wf,
+   keys_ok and, for the structural faults, first_pos_least): C03_unknown_segment — a segment matching no node of the
+   map, inserted anywhere in a conformant instance, draws exactly add_seg + seg_error('1', "Segment .. not found"),
+   leaves the counters and the position unchanged, and every other item is located exactly as before with nothing
+   reported; C03_single_structural_fault — an instance (relation finst: the rules of a conformant instance, except
+   that a unit may exceed its limit or be preceded by one missing required child) whose only annotated fault is f:
+   the items before are located silently, ONE step reports exactly the events of f (missing segment / loop: code 3
+   at the first segment after the gap, or at the first segment of the next instance when the loop restarts at once
+   — the case a defect hid before fix 279ef08; surplus segment: code 5 at the surplus item; surplus loop: code 4 at
+   the first segment of the surplus instance), the items after are located silently, counters as predicted.
+   PARTIAL: not proved — a missing child that is the last thing present in its instance when the loop is then left
+   (Examples only: C03_doc_examples.Corners K4), the same-position corners where the walker really is imprecise
+   (K1: a missing GE followed by IEA is never reported by the walker — the reader reports it; K2: reported twice;
+   K3: reported one segment late — each machine-checked and reproduced on the implementation), the attachment of the
+   error to the segment's line in the error tree, and that other sets stay accepted: checked on the implementation
+   by single-fault injection into conformant documents. *)
 From Coq Require Import String.
 From PX.Lib Require Import Base PyStr.
-From PX.Model Require Import Path Segment MapLoad MapTree Element.
-From PX.Spec Require Import C07_valid_wf C15_spec C0203_spec.
-From PX.Proofs Require Import C15_element C07_valid C0203_segment.
+From PX.Model Require Import Path Segment MapLoad MapTree Element Counter Walker.
+From PX.Spec Require Import C07_valid_wf C07_walker_wf C15_spec C0203_spec C02_doc_spec C03_doc_spec.
+From PX.Proofs Require Import C15_element C07_valid C0203_segment C02_doc_counter C02_doc_walk C02_doc C03_doc_walk C03_doc_inv C03_doc.
 
 Theorem C03_single_element_fault_localised :
   forall m sn d sg sg' i e x cds,
@@ -37,3 +51,44 @@ Theorem C03_extra_element_rejected :
       err_code h = cs "3" /\ err_refdes h = Some (fmt_02 (N.of_nat (S (length (s_children sn))))).
 Proof. exact extra_element_rejected. Qed.
 Print Assumptions C03_extra_element_rejected.
+
+(* ---- the document level (walker) ---- *)
+Theorem C03_unknown_segment_localised :
+  forall m d, walker_wf m = true -> keys_ok m = true ->
+  forall C sg0 pre post w z,
+    conf_inst m d C ((C ++ [0], sg0) :: pre ++ post) ->
+    (exists s0 rest, children_of m C = NSeg s0 :: rest) ->
+    opened m w C ->
+    unknown_seg m d z = true ->
+    exists wk,
+      run m d w (C ++ [0]) pre wk /\
+      step_unknown m d wk (last_ref pre (C ++ [0])) z /\
+      forall wz, same_counter wk wz ->
+        exists w'', run m d wz (last_ref pre (C ++ [0])) post w'' /\
+          forall r n, node_at (root_nodes m) r = Some n ->
+            cnt m (w_counter w'') r = predicted (pre ++ post) (cnt m (w_counter w)) r.
+Proof. exact C03_unknown_segment. Qed.
+Print Assumptions C03_unknown_segment_localised.
+
+Theorem C03_single_structural_fault :
+  forall m d, walker_wf m = true -> keys_ok m = true -> first_pos_least m = true ->
+  forall C sg0 fs0 body w f,
+    finst m d C (((C ++ [0], sg0), fs0) :: body) ->
+    (exists s0 rest, children_of m C = NSeg s0 :: rest) ->
+    opened m w C ->
+    faults_of body = [f] ->
+    exists pre it post wk wk' w',
+      body = pre ++ (it, [f]) :: post /\ faults_of pre = [] /\ faults_of post = [] /\
+      run m d w (C ++ [0]) (items_of pre) wk /\
+      step_ev m d wk (last_ref (items_of pre) (C ++ [0])) it (fault_ev m d (snd it) f) wk' /\
+      run m d wk' (fst it) (items_of post) w' /\
+      (forall r n, node_at (root_nodes m) r = Some n ->
+         cnt m (w_counter w') r = predicted (items_of body) (cnt m (w_counter w)) r).
+Proof. exact single_fault_located. Qed.
+Print Assumptions C03_single_structural_fault.
+
+(* conformant instances are exactly the annotated instances without any fault *)
+Theorem C03_conformant_is_fault_free_instance :
+  forall m d C its, conf_inst m d C its -> finst m d C (map (fun it => (it, [])) its).
+Proof. intros m d. exact (proj1 (conf_finst m d)). Qed.
+Print Assumptions C03_conformant_is_fault_free_instance.
